@@ -151,14 +151,43 @@ def run(ctx):
     ctx.rule("R12.3", "service handlers pass trigger_type='service', the call context and the call data, run the function in its own task and return its result", floor=2)
     for uid in ("eval.py::EvalFunc.trigger_init.pyscript_service_factory.pyscript_service_handler", "decorators/service.py::ServiceDecorator._service_callback"):
         f = program.func(uid)
-        txt = norm(f)
-        dicts = [n for n in body_walk(f) if isinstance(n, ast.Dict)]
-        keys = {k.value: norm(v) for d in dicts for k, v in zip(d.keys, d.values) if isinstance(k, ast.Constant)}
-        ok = keys.get("trigger_type") == "'service'" and keys.get("context") == "call.context" and "func_args.update(call.data)" in txt \
-            and "Function.create_task(" in txt and "return task.result()" in txt and "await task" in txt
-        ctx.check(ok, "R12.3", uid, "handler builds kwargs, runs a task, returns the result",
-                  msg=f"{uid}: service handler no longer passes trigger_type/context/call data or no longer returns the task result (keys={keys})",
-                  key="service handler contract", node=f, rel=uid.split("::")[0])
+        call_ctx = ObjV("call_ctx", "Context")
+        for data_label, data in (("two data fields", DictV([(Const("a"), Const(1)), (Const("trigger_type"), Const("spoofed"))])), ("no data", DictV([]))):
+            tasks = []
+
+            def create_task(i, n, a, k, c, o, tasks=tasks):
+                tasks.append(a[0] if a else None)
+                return [(c, ObjV("task", "Task"))]
+
+            pol = FlowPolicy(program, may_raise_all=False, cancel=False, summaries={
+                "Function.create_task": create_task, "task.result": lambda i, n, a, k, c, o: [(c, Sym(("function-result",)))],
+                "AstEval": lambda i, n, a, k, c, o: [(c, ObjV("run_evaluator", "AstEval"))], "Function.install_ast_funcs": lambda i, n, a, k, c, o: [(c, Const(None))]},
+                globals_={"self": ObjV("owner", "Owner"), "func": ObjV("the_function", "EvalFunc"), "func_name": Const("f"), "trig_ctx_name": Const("file.x")})
+            heap = {"call.context": call_ctx, "call.data": data, "call.service": Const("svc"), "owner.dm": ObjV("dm", "FunctionDecoratorManager"), "dm.eval_func": ObjV("the_function", "EvalFunc"),
+                    "dm.name": Const("file.x.f"), "the_function.global_ctx": ObjV("gctx", "GlobalContext"), "owner.global_ctx": ObjV("gctx", "GlobalContext"), "self.dm": ObjV("dm", "FunctionDecoratorManager")}
+            args = {"call": ObjV("call", "ServiceCall")}
+            if "ServiceDecorator" in uid:
+                args["self"] = ObjV("self", "ServiceDecorator")
+            out = run_flow(program, uid, pol, args=args, heap=heap)
+            want_args = {"trigger_type": Const("service"), "context": call_ctx}
+            want_args.update({k.v: v for k, v in data.items})
+            bad = None
+            rets = [c.env.get("$ret") for k, c, d in exits(out) if k == "return"]
+            if len(tasks) != 1:
+                bad = f"{len(tasks)} tasks created for one service call"
+            elif rets != [Sym(("function-result",))]:
+                bad = f"the handler returns {rets!r}, not the result of the function's task"
+            else:
+                coro = tasks[0]
+                passed = [x for x in (coro.args if isinstance(coro, App) else ()) if isinstance(x, DictV)]
+                got_args = {k.v: v for k, v in passed[0].items} if passed else None
+                runs_func = isinstance(coro, App) and ObjV("the_function", "EvalFunc") in coro.args
+                if got_args != want_args:
+                    bad = f"the function is called with {got_args}, specified {want_args} (trigger_type, the call's context, then the call's data fields)"
+                elif not runs_func:
+                    bad = f"the task does not run the declaring function ({coro!r})"
+            ctx.check(bad is None, "R12.3", uid, f"handler contract, {data_label}", msg=f"{uid} for a service call with {data_label}: {bad}", key=f"service handler contract {data_label}",
+                      node=f, rel=uid.split("::")[0])
         inner = [s for s in f.body if isinstance(s, ast.AsyncFunctionDef)]
         ok2 = bool(inner) and any(isinstance(t, ast.Try) and any("Exception" in norm(h.type) for h in t.handlers if h.type is not None) for t in ast.walk(inner[0]))
         ctx.check(ok2, "R12.3", uid, "the function call is protected", msg=f"{uid}: the service's function call is no longer wrapped in try/except Exception",
